@@ -2,18 +2,28 @@
 use super::*;
 use winnow::stream::Stream as _;
 
-const N: usize = 6;
 
-fn sym_ascii_text(buf: &mut [u8; N]) -> &str {
-    // symbolic ASCII text of symbolic length <= N over an alphabet that contains LF, CR, space and letters
-    let len: usize = kani::any();
-    kani::assume(len <= N);
-    for i in 0..N {
-        let c: u8 = kani::any();
-        kani::assume(c == b'\n' || c == b'\r' || c == b' ' || c == b'a' || c == b';');
-        buf[i] = c;
+const MAXB: usize = 3 * 4;
+
+/// symbolic text of <= 4 characters over {LF, CR, 'a', ';', 'あ' (3 bytes)}: CRLF line ends and multi-byte text occur
+fn sym_text(buf: &mut [u8; MAXB]) -> &str {
+    let n: usize = kani::any();
+    kani::assume(n <= 4);
+    let mut len = 0;
+    for i in 0..4 {
+        if i < n {
+            let k: u8 = kani::any();
+            kani::assume(k < 5);
+            match k {
+                0 => { buf[len] = b'\n'; len += 1; }
+                1 => { buf[len] = b'\r'; len += 1; }
+                2 => { buf[len] = b'a'; len += 1; }
+                3 => { buf[len] = b';'; len += 1; }
+                _ => { buf[len] = 0xE3; buf[len + 1] = 0x81; buf[len + 2] = 0x82; len += 3; }
+            }
+        }
     }
-    // SAFETY: all bytes are ASCII
+    // SAFETY: a concatenation of valid UTF-8 encoded characters
     unsafe { std::str::from_utf8_unchecked(&buf[..len]) }
 }
 
@@ -32,31 +42,32 @@ fn spec_line(s: &str, pos: usize) -> usize {
 
 /// C14: compute_line_number(s, pos) = 1 + number of LF before pos, for every text <= N bytes and every pos <= len.
 #[kani::proof]
-#[kani::unwind(8)]
+#[kani::unwind(14)]
 fn compute_line_number_bounded() {
-    let mut buf = [0u8; N];
-    let s = sym_ascii_text(&mut buf);
+    let mut buf = [0u8; MAXB];
+    let s = sym_text(&mut buf);
     let pos: usize = kani::any();
     kani::assume(pos <= s.len());
     let got = compute_line_number(s, pos);
     assert!(got == spec_line(s, pos));
     kani::cover!(got == 3);
+    kani::cover!(s.len() > 4 && pos == 5);
 }
 
 /// C14 + C06: ParseError::new terminates for every failure offset (including end of input), reports the first line of
 /// the entry that failed and an error span that starts at the failure offset and stays inside the remaining text.
 #[kani::proof]
-#[kani::unwind(9)]
+#[kani::unwind(15)]
 fn parse_error_new_bounded() {
-    let mut buf = [0u8; N];
-    let initial = sym_ascii_text(&mut buf);
+    let mut buf = [0u8; MAXB];
+    let initial = sym_text(&mut buf);
     let mut input = LocatingSlice::new(initial);
     let skip: usize = kani::any();
-    kani::assume(skip <= initial.len());
+    kani::assume(skip <= initial.len() && initial.is_char_boundary(skip));
     let _ = input.next_slice(skip);
     let start = input.checkpoint();
     let adv: usize = kani::any();
-    kani::assume(adv <= initial.len() - skip);
+    kani::assume(adv <= initial.len() - skip && initial.is_char_boundary(skip + adv));
     let _ = input.next_slice(adv);
     let err = ParseError::new(Renderer::plain(), initial, input, start, ContextError::new());
     let imp = &err.0;
